@@ -34,6 +34,7 @@ type Program struct {
 	cgIndex   map[ssa.CallInstruction][]*ssa.Function
 	fileOf    map[string]*ast.File
 	sccp      *SCCP
+	own       *Own
 }
 
 // Load type-checks and builds SSA for every package of the module under dir.
